@@ -17,6 +17,7 @@ macro_rules! recursion_depth {
 ///
 /// Fails if the query is not a valid GraphQL document.
 pub fn parse_query<T: AsRef<str>>(input: T) -> Result<ExecutableDocument> {
+    check_nesting_depth(input.as_ref())?;
     let mut pc = PositionCalculator::new(input.as_ref());
 
     let pairs = GraphQLParser::parse(Rule::executable_document, input.as_ref())
